@@ -15,7 +15,7 @@ pub mod unit_trackers {
     use super::ndf::*;
     use super::ndt::*;
     use super::ndt as ndarray;
-    broadcast use super::fl::fl_axioms, super::ndf::ndf_axioms, super::ndt::ndt_axioms, super::ndt::ax_mk_ad, super::ndt::ax_odim2_mk;
+    broadcast use super::fl::fl_axioms, super::ndf::ndf_axioms, super::ndt::ndt_axioms, super::ndt::ax_mk_ad, super::ndt::ax_odim2_mk, super::ndt::ax_gdim2_fl, super::ndt::ax_zero_fl;
 
     pub struct ChainStats {
         //@fields file=src/stats.rs name=ChainStats rules=R-f64
@@ -317,6 +317,318 @@ pub mod unit_trackers {
         &&& r.n == n && a1(r.mean).len() == np && a1(r.sm2).len() == np
         &&& forall |p: int| 0 <= p < np ==> (#[trigger] a1(r.mean)[p]) == fl(csum(fed, p, n) / (n as real))
         &&& forall |p: int| 0 <= p < np ==> (#[trigger] a1(r.sm2)[p]) == fl((csumsq(fed, p, n) - csum(fed, p, n) * csum(fed, p, n) / (n as real)) / ((n - 1) as real))
+    }
+
+    // ---- the multi-chain tracker (HMC progress): same summaries, all chains at once --------------------
+    pub struct MultiChainTracker {
+        //@fields file=src/stats.rs name=MultiChainTracker rules=R-f64
+    }
+    /// shape invariant of the struct
+    pub open spec fn mct_shape(t: MultiChainTracker) -> bool {
+        &&& odim2(t.mean) == (t.n_chains as int, t.n_params as int) && odim2(t.mean_sq) == (t.n_chains as int, t.n_params as int)
+        &&& odim2(t.last_state) == (t.n_chains as int, t.n_params as int)
+        &&& rect2(a2(t.mean), t.n_chains as int, t.n_params as int) && rect2(a2(t.mean_sq), t.n_chains as int, t.n_params as int)
+    }
+    /// W_p and var+_p from per-chain running means / means of squares after n updates, exactly as collect_rhat defines them
+    /// from the per-chain (mean, unbiased variance, n): sm2 = (mean_sq - mean^2) n/(n-1)
+    pub open spec fn mct_sm2(t: MultiChainTracker) -> Seq<Seq<Fl>> {
+        Seq::new(a2(t.mean).len(), |c: int| Seq::new(a2(t.mean)[c].len(), |p: int|
+            fl(((rv(a2(t.mean_sq)[c][p]) - rv(a2(t.mean)[c][p]) * rv(a2(t.mean)[c][p])) * (t.n as real)) / ((t.n - 1) as real))))
+    }
+    pub open spec fn m_within(sm2s: Seq<Seq<Fl>>, p: int) -> real { csum(sm2s, p, sm2s.len() as int) / (sm2s.len() as real) }
+    pub open spec fn m_between_over_n(means: Seq<Seq<Fl>>, p: int) -> real {
+        let g = csum(means, p, means.len() as int) / (means.len() as real);
+        cssd(means, g, p, means.len() as int) / ((means.len() - 1) as real)
+    }
+    pub open spec fn m_var_plus(means: Seq<Seq<Fl>>, sm2s: Seq<Seq<Fl>>, n: real, p: int) -> real {
+        m_between_over_n(means, p) + m_within(sm2s, p) * ((n - 1real) / n)
+    }
+    /// the same formulas, restated over ChainStats (so that "identical to collect_rhat" is literal)
+    pub proof fn lemma_cs_formulas_are_m_formulas(cs: Seq<&ChainStats>, p: int)
+        ensures cs_within(cs, p) == m_within(cs_sm2s(cs), p), cs_between_over_n(cs, p) == m_between_over_n(cs_means(cs), p),
+            cs_var_plus(cs, p) == m_var_plus(cs_means(cs), cs_sm2s(cs), nsum(cs, cs.len() as int) / (cs.len() as real), p)     // [C13.multi_tracker_formula_is_collect_rhat_formula]
+    {
+    }
+    pub proof fn lemma_between_algebra(s: real, n: real, cm1: real, w: real)
+        requires n != 0real, cm1 != 0real
+        ensures w * ((n - 1real) / n) + (s * (n / cm1)) * (1real / n) == s / cm1 + w * ((n - 1real) / n)
+    {
+        assert((s * (n / cm1)) * (1real / n) == s / cm1) by(nonlinear_arith) requires n != 0real, cm1 != 0real;
+    }
+
+    /// the history of chain c alone: what a per-chain ChainTracker for chain c would have been fed
+    pub open spec fn chain_hist(fed: Seq<Seq<Seq<Fl>>>, c: int) -> Seq<Seq<Fl>> { Seq::new(fed.len(), |k: int| fed[k][c]) }
+    /// the flat slice handed to `step`, as chains x params (row-major)
+    pub open spec fn as_rows(x: Seq<Fl>, nc: int, np: int) -> Seq<Seq<Fl>> { Seq::new(nc as nat, |c: int| Seq::new(np as nat, |p: int| x[c * np + p])) }
+    /// representation invariant: row c of the tracker summarises exactly chain c's part of the updates `fed` (fed[k][c][p])
+    pub open spec fn mwf(t: MultiChainTracker, fed: Seq<Seq<Seq<Fl>>>) -> bool {
+        let n = fed.len() as int;
+        let nc = t.n_chains as int;
+        let np = t.n_params as int;
+        &&& t.n == n && nc >= 1 && np >= 1 && mct_shape(t)
+        &&& forall |k: int| 0 <= k < n ==> rect2(#[trigger] fed[k], nc, np) && fin2(fed[k])
+        &&& val(t.p_accept) is Fin && 0real <= rv(t.p_accept) <= 1real
+        &&& n >= 1 ==> forall |c: int, p: int| 0 <= c < nc && 0 <= p < np ==> (#[trigger] a2(t.mean)[c][p]) == fl(csum(chain_hist(fed, c), p, n) / (n as real))
+        &&& n >= 1 ==> forall |c: int, p: int| 0 <= c < nc && 0 <= p < np ==> (#[trigger] a2(t.mean_sq)[c][p]) == fl(csumsq(chain_hist(fed, c), p, n) / (n as real))
+        &&& n >= 1 ==> a2(t.last_state) == fed[n - 1]
+        &&& n == 0 ==> forall |c: int, p: int| 0 <= c < nc && 0 <= p < np ==> (#[trigger] a2(t.mean)[c][p]) == fl(0real)
+    }
+    pub open spec fn mmean_at(mean: Seq<Seq<Fl>>, mean_sq: Seq<Seq<Fl>>, fed1: Seq<Seq<Seq<Fl>>>, n1: int, c: int, p: int) -> bool {
+        mean[c][p] == fl(csum(chain_hist(fed1, c), p, n1) / (n1 as real)) && mean_sq[c][p] == fl(csumsq(chain_hist(fed1, c), p, n1) / (n1 as real))
+    }
+    /// every accumulator of an EMA fold that starts in [0, 1] stays in [0, 1]
+    pub proof fn lemma_fold_unit<F: Fn(Fl, ArrayView1<Fl>, ArrayView1<Fl>) -> Fl>(f: F, a: Seq<Seq<Fl>>, b: Seq<Seq<Fl>>, init: Fl, accs: Seq<Fl>, res: Fl, k: int)
+        requires fold_ok(f, a, b, init, accs, res), 0 <= k <= a.len(), val(init) is Fin, 0real <= rv(init) <= 1real,
+            forall |acc: Fl, x: ArrayView1<Fl>, y: ArrayView1<Fl>, nx: Fl| #[trigger] f.ensures((acc, x, y), nx) ==> nx == ema(acc, !arr_eq(v1(x), v1(y))),
+        ensures val(accs[k]) is Fin, 0real <= rv(accs[k]) <= 1real
+        decreases k
+    {
+        if k > 0 {
+            lemma_fold_unit(f, a, b, init, accs, res, k - 1);
+            assert(fold_step(f, accs[k - 1], a[k - 1], b[k - 1], accs[k - 1 + 1]));
+            let (x, y) = choose |x: ArrayView1<Fl>, y: ArrayView1<Fl>| v1(x) == a[k - 1] && v1(y) == b[k - 1] && #[trigger] f.ensures((accs[k - 1], x, y), accs[k]);
+            lemma_ema_unit_interval(accs[k - 1], !arr_eq(v1(x), v1(y)));
+        }
+    }
+
+    pub proof fn lemma_cols_ext(m1: Seq<Seq<Fl>>, m2: Seq<Seq<Fl>>, g: real, p: int, k: int)
+        requires forall |i: int| 0 <= i < k ==> rv((#[trigger] m1[i])[p]) == rv(m2[i][p])
+        ensures csum(m1, p, k) == csum(m2, p, k), cssd(m1, g, p, k) == cssd(m2, g, p, k)
+        decreases k
+    {
+        if k > 0 { lemma_cols_ext(m1, m2, g, p, k - 1); assert(rv(m1[k - 1][p]) == rv(m2[k - 1][p])); }
+    }
+    pub proof fn lemma_nsum_const(cs: Seq<&ChainStats>, n: int, k: int)
+        requires 0 <= k <= cs.len(), forall |m: int| 0 <= m < cs.len() ==> (#[trigger] cs[m]).n == n
+        ensures nsum(cs, k) == (n as real) * (k as real)
+        decreases k
+    {
+        if k > 0 {
+            lemma_nsum_const(cs, n, k - 1);
+            assert(cs[k - 1].n == n);
+            let nr = n as real; let kr = k as real;
+            assert(((k - 1) as real) == kr - 1real);
+            assert(nr * (kr - 1real) + nr == nr * kr) by(nonlinear_arith);
+            assert(cs[k - 1].n as real == nr);
+        } else {
+            assert((n as real) * (k as real) == 0real) by(nonlinear_arith) requires k == 0;
+        }
+    }
+    /// C13, "identical to what collect_rhat reports for the same data": if per-chain trackers were fed chain c's part of the
+    /// same updates (their `stats()` then satisfy stats_post), collect_rhat's W and var+ are the multi-chain tracker's W and var+
+    pub proof fn lemma_multi_equals_collect(t: MultiChainTracker, fed: Seq<Seq<Seq<Fl>>>, cs: Seq<&ChainStats>, p: int)
+        requires mwf(t, fed), fed.len() >= 2, t.n_chains >= 2, cs.len() == t.n_chains, 0 <= p < t.n_params,
+            forall |c: int| 0 <= c < t.n_chains ==> stats_post(chain_hist(fed, c), t.n_params as int, *#[trigger] cs[c]),
+        ensures m_within(mct_sm2(t), p) == cs_within(cs, p),
+            m_var_plus(a2(t.mean), mct_sm2(t), t.n as real, p) == cs_var_plus(cs, p)    // [C13.multi_tracker_rhat_equals_collect_rhat_on_same_data]
+    {
+        broadcast use ax_val_mk;
+        let n = fed.len() as int;
+        let nc = t.n_chains as int;
+        let np = t.n_params as int;
+        assert(a2(t.mean).len() == nc);
+        assert forall |c: int| 0 <= c < nc implies rv((#[trigger] mct_sm2(t)[c])[p]) == rv(cs_sm2s(cs)[c][p]) && rv(a2(t.mean)[c][p]) == rv(cs_means(cs)[c][p]) by {
+            let h = chain_hist(fed, c);
+            assert(stats_post(h, np, *cs[c]));
+            assert(h.len() == n);
+            assert(a2(t.mean)[c][p] == fl(csum(h, p, n) / (n as real)));
+            assert(a2(t.mean_sq)[c][p] == fl(csumsq(h, p, n) / (n as real)));
+            assert(a1(cs[c].mean)[p] == fl(csum(h, p, n) / (n as real)));
+            lemma_unbiased_variance(csumsq(h, p, n), csum(h, p, n), n as real);
+            assert(a2(t.mean)[c].len() == np);
+        }
+        let g = csum(a2(t.mean), p, nc) / (nc as real);
+        lemma_cols_ext(mct_sm2(t), cs_sm2s(cs), 0real, p, nc);
+        lemma_cols_ext(a2(t.mean), cs_means(cs), g, p, nc);
+        lemma_nsum_const(cs, n, nc);
+        assert(((n as real) * (nc as real)) / (nc as real) == n as real) by(nonlinear_arith) requires nc >= 2;
+        assert(mct_sm2(t).len() == nc);
+    }
+
+    impl MultiChainTracker {
+        pub fn step<T: ToPrimitive>(&mut self, x: &[T]) -> (r: Result<(), BoxDynError>)
+            requires old(self).n < usize::MAX, convertible(x@), mct_shape(*old(self)), old(self).n_chains >= 1, old(self).n_params >= 1,
+                old(self).n_chains * old(self).n_params <= usize::MAX,
+                val(old(self).p_accept) is Fin && 0real <= rv(old(self).p_accept) <= 1real,
+            ensures
+                (r is Ok) == (x@.len() == old(self).n_chains * old(self).n_params),                                           // [C13.multi_tracker_step_ok_iff_right_length]
+                r is Ok ==> forall |fed: Seq<Seq<Seq<Fl>>>| #[trigger] mwf(*old(self), fed) && fin1(conv(x@))
+                    ==> mwf(*final(self), fed.push(as_rows(conv(x@), old(self).n_chains as int, old(self).n_params as int))),   // [C13.multi_tracker_step_appends_to_every_chain]
+        //@body id=mct_step file=src/stats.rs impl_self=MultiChainTracker name=step props=C13
+        //@sig fn step < T > (& mut self , x : & [T]) -> Result < () , Box < dyn Error > > where T : Num + num_traits :: ToPrimitive + num_traits :: FromPrimitive + std :: clone :: Clone + std :: cmp :: PartialOrd ,
+        //@rules R-f64 R-lit R-cast R-dynerr R-const
+        //@const ALPHA:ALPHA_c
+        //@closure 1 params="x: T" ret="(r: Fl)"
+        //@| requires x.f32_of() is Some
+        //@| ensures r == x.f32_of()->Some_0
+        //@closure 2 params="p_accept: Fl; a: ArrayView1<Fl>; b: ArrayView1<Fl>" ret="(r: Fl)" bind=ema_cl
+        //@| ensures r == ema(p_accept, !arr_eq(v1(a), v1(b)))
+        //@anchor x0 scope=fn pos=after match="^let x_arr ="
+        //@| let ghost nc = self.n_chains as int;
+        //@| let ghost np = self.n_params as int;
+        //@| let ghost xm = a2(x_arr);
+        //@| proof {
+        //@|     assert forall |c: int| 0 <= c < nc implies (#[trigger] xm[c]) =~= as_rows(conv(x@), nc, np)[c] by {
+        //@|         assert forall |p: int| 0 <= p < np implies xm[c][p] == conv(x@)[c * np + p] by {
+        //@|             assert(0 <= c * np + p < nc * np) by(nonlinear_arith) requires 0 <= c < nc, 0 <= p < np;
+        //@|         }
+        //@|     }
+        //@|     assert(xm =~= as_rows(conv(x@), nc, np));
+        //@|     assert(odim2(x_arr) == (nc, np));
+        //@| }
+        //@anchor m0 scope=fn pos=before match="^self \\. mean ="
+        //@| proof {
+        //@|     assert(rect2(scale2(a2(self.mean), f_sub(n, fl(1real))), nc, np));
+        //@|     assert(rect2(scale2(a2(self.mean_sq), f_sub(n, fl(1real))), nc, np));
+        //@|     assert(rect2(sq2(xm), nc, np));
+        //@| }
+        //@anchor m1 scope=fn pos=before match="^self \\. p_accept ="
+        //@| proof {
+        //@|     let m0 = a2(old(self).mean); let q0 = a2(old(self).mean_sq); let k = f_sub(n, fl(1real));
+        //@|     assert(rect2(add2(scale2(m0, k), xm), nc, np));
+        //@|     assert(rect2(divs2(add2(scale2(m0, k), xm), n), nc, np));
+        //@|     assert(rect2(add2(scale2(q0, k), sq2(xm)), nc, np));
+        //@|     assert(rect2(divs2(add2(scale2(q0, k), sq2(xm)), n), nc, np));
+        //@|     assert(odim2(self.mean) == (nc, np));
+        //@|     assert(odim2(self.mean_sq) == (nc, np));
+        //@| }
+        //@anchor p0 scope=fn pos=before match="^self \\. p_accept ="
+        //@| let ghost p_start = self.p_accept;
+        //@| let ghost last0 = a2(self.last_state);
+        //@anchor p1 scope=fn pos=before match="^self \\. last_state = x_arr"
+        //@| proof {
+        //@|     let pa = self.p_accept;
+        //@|     let accs = choose |accs: Seq<Fl>| #[trigger] fold_ok(ema_cl, xm, last0, p_start, accs, pa);
+        //@|     lemma_fold_unit(ema_cl, xm, last0, p_start, accs, pa, nc);
+        //@|     assert forall |fed: Seq<Seq<Seq<Fl>>>| #[trigger] mwf(*old(self), fed) && fin1(conv(x@)) implies
+        //@|         (forall |c: int, p: int| 0 <= c < nc && 0 <= p < np ==> #[trigger] mmean_at(a2(self.mean), a2(self.mean_sq), fed.push(xm), fed.len() as int + 1, c, p)) && fin2(xm) by {
+        //@|         let n0 = fed.len() as int;
+        //@|         let n1 = n0 + 1;
+        //@|         let fed1 = fed.push(xm);
+        //@|         assert forall |c: int| 0 <= c < nc implies fin1(#[trigger] xm[c]) by {
+        //@|             assert forall |p: int| 0 <= p < xm[c].len() implies val(#[trigger] xm[c][p]) is Fin by {
+        //@|                 assert(0 <= c * np + p < nc * np) by(nonlinear_arith) requires 0 <= c < nc, 0 <= p < np;
+        //@|                 assert(xm[c][p] == conv(x@)[c * np + p]);
+        //@|             }
+        //@|         }
+        //@|         assert forall |c: int, p: int| 0 <= c < nc && 0 <= p < np implies #[trigger] mmean_at(a2(self.mean), a2(self.mean_sq), fed1, n1, c, p) by {
+        //@|             assert(chain_hist(fed1, c) =~= chain_hist(fed, c).push(xm[c]));
+        //@|             lemma_csum_push(chain_hist(fed, c), xm[c], p, n0);
+        //@|             assert(fin1(xm[c]));
+        //@|             assert(val(xm[c][p]) is Fin);
+        //@|             assert(n == fl(n1 as real));
+        //@|             let m0 = a2(old(self).mean); let q0 = a2(old(self).mean_sq); let kk = f_sub(n, fl(1real));
+        //@|             assert(a2(self.mean) == divs2(add2(scale2(m0, kk), xm), n));
+        //@|             assert(a2(self.mean)[c][p] == fl_div(f_add(f_mul(m0[c][p], kk), xm[c][p]), n));
+        //@|             if n0 >= 1 {
+        //@|                 assert(a2(self.mean_sq) == divs2(add2(scale2(q0, kk), sq2(xm)), n));
+        //@|                 assert(a2(self.mean_sq)[c][p] == fl_div(f_add(f_mul(q0[c][p], kk), f_sq(xm[c][p])), n));
+        //@|             } else {
+        //@|                 assert(a2(self.mean_sq) == sq2(xm));
+        //@|                 assert(a2(self.mean_sq)[c][p] == f_sq(xm[c][p]));
+        //@|             }
+        //@|             if n0 >= 1 {
+        //@|                 lemma_running_mean(csum(chain_hist(fed, c), p, n0), rv(xm[c][p]), n1 as real);
+        //@|                 lemma_running_mean(csumsq(chain_hist(fed, c), p, n0), rv(xm[c][p]) * rv(xm[c][p]), n1 as real);
+        //@|                 assert(a2(old(self).mean)[c][p] == fl(csum(chain_hist(fed, c), p, n0) / (n0 as real)));
+        //@|                 assert(a2(old(self).mean_sq)[c][p] == fl(csumsq(chain_hist(fed, c), p, n0) / (n0 as real)));
+        //@|             } else {
+        //@|                 assert(a2(old(self).mean)[c][p] == fl(0real));
+        //@|             }
+        //@|         }
+        //@|     }
+        //@| }
+        //@anchor fin scope=fn pos=before match="^Ok"
+        //@| proof {
+        //@|     assert forall |fed: Seq<Seq<Seq<Fl>>>| #[trigger] mwf(*old(self), fed) && fin1(conv(x@)) implies mwf(*self, fed.push(xm)) by {
+        //@|         let fed1 = fed.push(xm);
+        //@|         let n1 = fed.len() as int + 1;
+        //@|         assert(mct_shape(*self));
+        //@|         assert forall |k: int| 0 <= k < n1 implies rect2(#[trigger] fed1[k], nc, np) && fin2(fed1[k]) by { if k < n1 - 1 { assert(fed1[k] == fed[k]); } }
+        //@|         assert forall |c: int, p: int| 0 <= c < nc && 0 <= p < np implies (#[trigger] a2(self.mean)[c][p]) == fl(csum(chain_hist(fed1, c), p, n1) / (n1 as real)) by { assert(mmean_at(a2(self.mean), a2(self.mean_sq), fed1, n1, c, p)); }
+        //@|         assert forall |c: int, p: int| 0 <= c < nc && 0 <= p < np implies (#[trigger] a2(self.mean_sq)[c][p]) == fl(csumsq(chain_hist(fed1, c), p, n1) / (n1 as real)) by { assert(mmean_at(a2(self.mean), a2(self.mean_sq), fed1, n1, c, p)); }
+        //@|     }
+        //@| }
+        //@end
+
+        pub fn new(n_chains: usize, n_params: usize) -> (r: Self)
+            requires n_chains >= 1, n_params >= 1
+            ensures r.n == 0 && r.n_chains == n_chains && r.n_params == n_params && mct_shape(r) && r.p_accept == fl(0real),     // [C13.multi_tracker_new]
+                mwf(r, Seq::<Seq<Seq<Fl>>>::empty()),
+        //@body id=mct_new file=src/stats.rs impl_self=MultiChainTracker name=new props=C13
+        //@sig fn new (n_chains : usize , n_params : usize) -> Self
+        //@rules R-f64 R-lit
+        //@end
+
+        pub fn rhat(&self) -> (r: Result<Array1<Fl>, BoxDynError>)
+            requires mct_shape(*self), self.n_chains >= 2, self.n_params >= 1, self.n >= 2, fin2(a2(self.mean)), fin2(a2(self.mean_sq))
+            ensures r is Ok, a1(r->Ok_0).len() == self.n_params,
+                forall |p: int| 0 <= p < self.n_params ==> (#[trigger] a1(r->Ok_0)[p])
+                    == f_sqrt(fl_div(fl(m_var_plus(a2(self.mean), mct_sm2(*self), self.n as real, p)), fl(m_within(mct_sm2(*self), p)))),    // [C13.multi_tracker_rhat_is_sqrt_varplus_over_w]
+        //@body id=mct_rhat file=src/stats.rs impl_self=MultiChainTracker name=rhat props=C13
+        //@sig fn rhat (& self) -> Result < Array1 < f32 > , Box < dyn Error > >
+        //@rules R-f64 R-dynerr
+        //@end
+
+        fn within_and_var(&self) -> (r: Result<(Array1<Fl>, Array1<Fl>), BoxDynError>)
+            requires mct_shape(*self), self.n_chains >= 2, self.n_params >= 1, self.n >= 2, fin2(a2(self.mean)), fin2(a2(self.mean_sq))
+            ensures
+                r is Ok,
+                a1(r->Ok_0.0).len() == self.n_params && a1(r->Ok_0.1).len() == self.n_params,
+                forall |p: int| 0 <= p < self.n_params ==> (#[trigger] a1(r->Ok_0.0)[p]) == fl(m_within(mct_sm2(*self), p)),                      // [C13.multi_tracker_within]
+                forall |p: int| 0 <= p < self.n_params ==> (#[trigger] a1(r->Ok_0.1)[p]) == fl(m_var_plus(a2(self.mean), mct_sm2(*self), self.n as real, p)),   // [C13.multi_tracker_var_plus_equals_collect_rhat_formula]
+        //@body id=mct_within_and_var file=src/stats.rs impl_self=MultiChainTracker name=within_and_var props=C13
+        //@sig fn within_and_var (& self) -> Result < (Array1 < f32 > , Array1 < f32 >) , Box < dyn Error > >
+        //@rules R-f64 R-lit R-cast R-dynerr
+        //@anchor w0 scope=fn pos=after match="^let mean_chain"
+        //@| let ghost mc = a1(mean_chain);
+        //@| let ghost nc = self.n_chains as int;
+        //@| let ghost np = self.n_params as int;
+        //@| let ghost means = a2(self.mean);
+        //@| let ghost nr = self.n as real;
+        //@| proof { assert(rect2(subrow2(means, mc), nc, np)); assert(rect2(sq2(subrow2(means, mc)), nc, np)); }
+        //@anchor w1 scope=fn pos=after match="^let between"
+        //@| proof {
+        //@|     let diffs = subrow2(means, mc);
+        //@|     let sq = sq2(diffs);
+        //@|     assert(n == fl(nr) && n_chains == fl(nc as real));
+        //@|     assert(fac == fl(nr / ((nc - 1) as real)));
+        //@|     assert(a1(between).len() == np);
+        //@|     assert forall |i: int, p: int| 0 <= i < nc && 0 <= p < np implies (#[trigger] diffs[i][p]) == fl(rv(means[i][p]) - csum(means, p, nc) / (nc as real)) by {
+        //@|         assert(val(means[i][p]) is Fin);
+        //@|     }
+        //@|     assert forall |i: int| 0 <= i < nc implies fin1(#[trigger] sq[i]) by {
+        //@|         assert forall |p: int| 0 <= p < sq[i].len() implies val(#[trigger] sq[i][p]) is Fin by { assert(val(diffs[i][p]) is Fin); }
+        //@|     }
+        //@|     assert(fin2(sq));
+        //@|     assert forall |p: int| 0 <= p < np implies (#[trigger] a1(between)[p]) == fl(cssd(means, csum(means, p, nc) / (nc as real), p, nc) * (nr / ((nc - 1) as real))) by {
+        //@|         lemma_csum_sq_is_cssd(diffs, sq, means, csum(means, p, nc) / (nc as real), p, nc);
+        //@|     }
+        //@| }
+        //@anchor w2 scope=fn pos=after match="^let sm2"
+        //@| proof {
+        //@|     assert(a2(sm2) =~= mct_sm2(*self)) by {
+        //@|         assert forall |c: int, p: int| 0 <= c < nc && 0 <= p < np implies (#[trigger] a2(sm2)[c][p]) == mct_sm2(*self)[c][p] by {
+        //@|             assert(val(means[c][p]) is Fin && val(a2(self.mean_sq)[c][p]) is Fin);
+        //@|         }
+        //@|         assert forall |c: int| 0 <= c < nc implies (#[trigger] a2(sm2)[c]) =~= mct_sm2(*self)[c] by {}
+        //@|     }
+        //@|     assert(fin2(a2(sm2)));
+        //@|     let d = sub2(a2(self.mean_sq), sq2(means)); let e = scale2(d, n); let f = divs2(e, f_sub(n, fl(1real)));
+        //@|     assert(rect2(d, nc, np)); assert(rect2(e, nc, np)); assert(rect2(f, nc, np));
+        //@|     assert(odim2(mk_a2(d)) == (nc, np)); assert(odim2(mk_a2(e)) == (nc, np));
+        //@|     assert(odim2(sm2) == (nc, np));
+        //@| }
+        //@anchor w2b scope=fn pos=after match="^let within"
+        //@| proof { assert(a1(within).len() == np); }
+        //@anchor w3 scope=fn pos=after match="^let var ="
+        //@| proof {
+        //@|     assert forall |p: int| 0 <= p < np implies (#[trigger] a1(var)[p]) == fl(m_var_plus(means, mct_sm2(*self), nr, p)) by {
+        //@|         assert(a1(within)[p] == fl(m_within(mct_sm2(*self), p)));
+        //@|         lemma_between_algebra(cssd(means, csum(means, p, nc) / (nc as real), p, nc), nr, (nc - 1) as real, m_within(mct_sm2(*self), p));
+        //@|     }
+        //@| }
+        //@end
     }
 }
 } // verus!
